@@ -19,6 +19,8 @@ pub fn def() -> PropDef {
         needed_probes: &["c10_spacing_checked", "c10_exact_schedule_checked", "c10_oneshot_checked", "c10_died_with_pending_timer", "timer_fired_while_runnable", "c10_last_drop_with_timer"],
         quick_runs: 30_000,
         thorough_runs: 2_000_000,
+        block: 1,
+        flavours: &["tokio"],
     }
 }
 
